@@ -91,6 +91,4 @@ theorem nameOf_faithful (cv : Nat → Nat) (i : Nat) :
       · simp only [List.cons.injEq, true_and] at h
         rw [← h]; exact Nat.ofDigitChars_toDigits (by omega) (by omega)
 
-#print axioms nameOf_inj
-#print axioms nameOf_faithful
 end P.Naming
